@@ -167,7 +167,12 @@ def run(ctx: Ctx) -> None:
 
     # R7
     wsinit = repo.func(M, "H11WSConnection.__init__")
-    ok = any(isinstance(n, ast.Assign) and dotted(n.targets[0]) == "self.buffer" and norm(n.value) == "bytearray(h11_connection.trailing_data[0])" for n in walk_local(wsinit))
+    bufs = [n for n in walk_local(wsinit) if isinstance(n, ast.Assign) and dotted(n.targets[0]) == "self.buffer"]
+    ok = False
+    if len(bufs) == 1 and isinstance(bufs[0].value, ast.Call) and call_name(bufs[0].value) == "bytearray" and len(bufs[0].value.args) == 1:
+        a0 = bufs[0].value.args[0]
+        pv7 = provenance(a0, wsinit)
+        ok = norm(a0) == "h11_connection.trailing_data[0]" or ("h11_connection.trailing_data" in pv7.leaves and "[0]" in pv7.ops and "[1]" not in pv7.ops)
     ctx.check("C13.R7", f"{M}:H11WSConnection.__init__", "buffer seeded from trailing_data[0]", ok, "bytes that followed the upgrade request in the same read would be lost", wsinit)
     rd = repo.func(M, "H11WSConnection.receive_data")
     ok = [norm(s) for s in rd.body] == ["self.buffer.extend(data)"]
